@@ -13,7 +13,7 @@ CONSTANTS
     WrapUser = TRUE
     TruncNext = TRUE
     CloneSharesGB = TRUE
-    Strict = TRUE
+    Strict = "enforce"
 INVARIANTS
     OnlyDeclaredDBRPs
     HistoricalEqualsLive
